@@ -70,11 +70,28 @@ def connectDefinitelyMalformed (s : Bytes) : Bool :=
   | [] => false
   | c :: rest => numberMalformed s || (c == 0x2D && rest.any (· != 0x30))   -- malformed or negative
 
+/-- More than ten digits: beyond the grammar and the practical range. It may be rejected or
+    clamped (to no less than the ten-digit maximum and no more than its own value); it must not
+    turn into a short deadline. -/
+def connectOverlong (s : Bytes) : Option Nat :=
+  if allDigits s && s.length > 10 then parseNat s else none
+
+/-- What may happen to an over-long (more than ten digits) value `n`: rejected, or conveyed /
+    clamped to no less than the ten-digit maximum and no more than `n` — never a shorter deadline. -/
+def overlongOk (n : Nat) : Option (Option Int) → Bool
+  | none => true
+  | some (some d) => (decide (9999999999000000 ≤ d) || decide ((n : Int) * 1000000 ≤ d)) && decide (d ≤ (n : Int) * 1000000)
+  | some none => false
+
 def connectExtractOk (s : Bytes) (out : Option (Option Int)) : Bool :=
   if s.isEmpty then out == some none
   else match connectValue s with
     | some v => out == some (some v)
-    | none => if connectDefinitelyMalformed s then out == none else true
+    | none =>
+      if connectDefinitelyMalformed s then out == none
+      else match connectOverlong s with
+        | some n => overlongOk n out
+        | none => true
 
 /-- Oracle for `connectEncodeTimeout d` (`d ≥ 0`): 1–10 digits; never more than `d`; short by less
     than a millisecond unless clamped to the 10-digit maximum. -/
